@@ -7,7 +7,7 @@
      Br(msg)                        line breaks rendered as <br/>
 
    IMPLEMENTATION SHAPED (one action per block of ItemGrader.__call__ / AbstractGrader.__call__, current code):
-     Start -> [Infer] -> Ensure -> Check -> ([EvalFn -> MathEval ->] Wrap | Post) -> returned / escaped
+     Start -> [Infer] -> Ensure -> Check -> ([EvalFn -> MathEval -> [SumCheck] ->] Wrap | Post) -> returned / escaped
      The environment decides what the grading step does: Return, or Raise(c, msg) for every class c of Errors!Tree
      and every outsider.  For grader kinds whose failure starts inside a user function (FormulaGrader / SumGrader
      with a failing user function) or inside an arithmetic operator, the two recasting layers of the expression
@@ -82,9 +82,13 @@ RecastEval(o) == IF o.cls = "OverflowError" THEN Raised("CalcOverflowError", Lib
                  ELSE IF o.cls = "ZeroDivisionError" THEN Raised("CalcZeroDivisionError", LibMsg)
                  ELSE o
 
+\* SummationGraderBase.check: an IntegrationError is re-raised with an explanatory prefix (same class)
+Prefixed(m) == IF m # <<>> /\ m[1] = "w" THEN m ELSE <<"w">> \o m       \* adjacent text runs are one run
+RecastSum(o) == IF o.cls = "IntegrationError" THEN Raised("IntegrationError", Prefixed(o.msg)) ELSE o
+
 (* ------------------------------------------------------------------ the call as a state machine *)
 VARIABLES c,        \* the case: [gk, debug, form, n, v, expect, answers, credit]
-          pc,       \* "start" "infer" "ensure" "check" "evalfn" "matheval" "wrap" "post" "returned" "escaped"
+          pc,       \* "start" "infer" "ensure" "check" "evalfn" "matheval" "sumcheck" "wrap" "post" "returned" "escaped"
           origin,   \* where the failure started (user function / operator), before any recasting
           inner,    \* what reaches the wrapper (or escapes outside it)
           esc,      \* what edX observes
@@ -148,7 +152,10 @@ EvalFn == /\ pc = "evalfn"
           /\ Step("evalfn", "matheval") /\ UNCHANGED <<c, origin, esc>>
 MathEval == /\ pc = "matheval"
             /\ inner' = RecastEval(inner)
-            /\ Step("matheval", "wrap") /\ UNCHANGED <<c, origin, esc>>
+            /\ Step("matheval", IF c.gk = "sumfn" THEN "sumcheck" ELSE "wrap") /\ UNCHANGED <<c, origin, esc>>
+SumCheck == /\ pc = "sumcheck"
+            /\ inner' = RecastSum(inner)
+            /\ Step("sumcheck", "wrap") /\ UNCHANGED <<c, origin, esc>>
 
 \* the except clause of AbstractGrader.__call__
 Wrap == /\ pc = "wrap"
@@ -167,7 +174,7 @@ Post == /\ pc = "post"
                 /\ UNCHANGED <<c, origin>>
            ELSE Step("post", "returned") /\ UNCHANGED <<c, origin, inner, esc>>
 
-Next == Start \/ Infer \/ Ensure \/ Check \/ EvalFn \/ MathEval \/ Wrap \/ Post
+Next == Start \/ Infer \/ Ensure \/ Check \/ EvalFn \/ MathEval \/ SumCheck \/ Wrap \/ Post
 Spec == Init /\ [][Next]_vars /\ WF_vars(Next)
 
 (* ------------------------------------------------------------------ laws *)
@@ -176,9 +183,9 @@ InferFailed == pc = "escaped" /\ trail[Len(trail)] = "infer"      \* the author'
 Result == IF pc = "returned" THEN Ret ELSE esc
 Did(name) == \E i \in DOMAIN trail : trail[i] = name
 
-TypeOK == /\ pc \in {"start", "infer", "ensure", "check", "evalfn", "matheval", "wrap", "post", "returned", "escaped"}
+TypeOK == /\ pc \in {"start", "infer", "ensure", "check", "evalfn", "matheval", "sumcheck", "wrap", "post", "returned", "escaped"}
           /\ (pc = "escaped") <=> (esc # NotRun)
-          /\ Len(trail) <= 7
+          /\ Len(trail) <= 8
 
 \* the headline: with debug off nothing outside the family reaches edX
 EscapeFamily == (pc = "escaped" /\ ~c.debug) => esc.cls \in MITxFamily
@@ -209,7 +216,9 @@ InferEscapesAsRaised == InferFailed => esc = Escape(inner.cls, TextMsg(inner.msg
 \* student-facing origin keeps class and message
 FnFaultAnticipated == (pc = "escaped" /\ origin.k = "raise" /\ ~c.debug)
                          => /\ esc.cls \in StudentFacing /\ esc.msg.t = "text"
-                            /\ (origin.cls \in StudentFacing => esc = Escape(origin.cls, TextMsg(Br(origin.msg))))
+                            /\ (origin.cls \in StudentFacing =>
+                                  esc = Escape(origin.cls, TextMsg(Br(IF c.gk = "sumfn" /\ origin.cls = "IntegrationError"
+                                                                      THEN Prefixed(origin.msg) ELSE origin.msg))))
                             /\ (origin.cls \notin StudentFacing => esc.cls \in CalcFamily)
 \* the order of blocks
 TrailShape == Finished => /\ trail[1] = "start"
